@@ -10,6 +10,7 @@
     check_case = bit0 (model trace <> implementation trace)
                + bit1 (monitor fails on the implementation trace)
                + 4 * detail   (bit1: clause + 16*entry, see [mon_step]; else 1000 + step). *)
+From Coq Require Import DecimalString.
 From Srtla Require Import Base Constants.
 From Srtla Require Export Json Control ControlSpec.
 Local Open Scope string_scope.
@@ -178,12 +179,161 @@ Fixpoint first_diff (m : list (op * obs)) (impl : list obs) (i : N) : N :=
   | _, _ => (i + 1)%N
   end.
 
+(* vocabulary: BEGIN — interned strings of the case files (string literals are the slow part of
+   parsing a case file); the harness reads this block, so the two sides cannot drift *)
+Definition v0 : string := "jsonrpc".
+Definition v1 : string := "method".
+Definition v2 : string := "params".
+Definition v3 : string := "id".
+Definition v4 : string := "2.0".
+Definition v5 : string := "error".
+Definition v6 : string := "code".
+Definition v7 : string := "message".
+Definition v8 : string := "data".
+Definition v9 : string := "result".
+Definition v10 : string := "set_mode".
+Definition v11 : string := "set_quality".
+Definition v12 : string := "set_stall_deselect".
+Definition v13 : string := "set_conn_timeout".
+Definition v14 : string := "get_status".
+Definition v15 : string := "get_stats".
+Definition v16 : string := "subscribe".
+Definition v17 : string := "unsubscribe".
+Definition v18 : string := "get_subscription_count".
+Definition v19 : string := "mode".
+Definition v20 : string := "enabled".
+Definition v21 : string := "ms".
+Definition v22 : string := "topic".
+Definition v23 : string := "subscription_id".
+Definition v24 : string := "classic".
+Definition v25 : string := "enhanced".
+Definition v26 : string := "stats".
+Definition v27 : string := "priority.window".
+Definition v28 : string := "removed".
+Definition v29 : string := "count".
+Definition v30 : string := "conn_timeout_ms".
+Definition v31 : string := "critical_malformed_datagrams".
+Definition v32 : string := "critical_windows_received".
+Definition v33 : string := "quality_enabled".
+Definition v34 : string := "stall_ack_stale_ms".
+Definition v35 : string := "stall_deselect".
+Definition v36 : string := "stall_min_in_flight".
+Definition v37 : string := "active_links".
+Definition v38 : string := "total_links".
+Definition v39 : string := "total_window".
+Definition v40 : string := "total_in_flight".
+Definition v41 : string := "weak_link_estimated_max_delay_ms".
+Definition v42 : string := "weak_link_selected_delay_ms".
+Definition v43 : string := "links".
+Definition v44 : string := "parse error".
+Definition v45 : string := "jsonrpc version must be ""2.0""".
+Definition v46 : string := "expected params.mode: string".
+Definition v47 : string := "expected params.enabled: bool".
+Definition v48 : string := "expected params.ms: u64".
+Definition v49 : string := "expected params.topic: string".
+Definition v50 : string := "expected params.subscription_id: string".
+Definition v51 : string := "stats provider not registered".
+Definition v52 : string := "subscribe is reserved for a future streaming protocol, not yet implemented".
+Definition v53 : string := "unsubscribe is reserved for a future streaming protocol, not yet implemented".
+Definition v54 : string := "unknown method: get_subscription_count".
+Definition v55 : string := "unknown method: subscribe".
+Definition v56 : string := "unknown method: unsubscribe".
+Definition v57 : string := "".
+Definition v58 : string := "noop".
+Definition v59 : string := "set_mode ".
+Definition v60 : string := "Set_mode".
+Definition v61 : string := "SET_MODE".
+Definition v62 : string := "set-mode".
+Definition v63 : string := "setmode".
+Definition v64 : string := "get_statu".
+Definition v65 : string := "get_status2".
+Definition v66 : string := "mark_critical".
+Definition v67 : string := "set_conn_timeout_ms".
+Definition v68 : string := "subscribe ".
+Definition v69 : string := "unsubscribe_all".
+Definition v70 : string := "rpc.discover".
+Definition v71 : string := "été".
+Definition v72 : string := "a""b".
+Definition v73 : string := "x/y\z".
+Definition v74 : string := "😀".
+Definition v75 : string := "a".
+Definition v76 : string := "abc".
+Definition v77 : string := "sub-0".
+Definition v78 : string := "sub-1".
+Definition v79 : string := "sub-2".
+Definition v80 : string := "sub-3".
+Definition v81 : string := "sub-4".
+Definition v82 : string := "sub-5".
+Definition v83 : string := "x y".
+Definition v84 : string := "back\slash".
+Definition v85 : string := "sl/ash".
+Definition v86 : string := "é".
+Definition v87 : string := "中文".
+Definition v88 : string := "null".
+Definition v89 : string := "true".
+Definition v90 : string := "false".
+Definition v91 : string := "0".
+Definition v92 : string := "1".
+Definition v93 : string := "Classic".
+Definition v94 : string := "classic ".
+Definition v95 : string := "{}".
+Definition v96 : string := "[1]".
+Definition v97 : string := "ENHANCED".
+Definition v98 : string := " enhanced".
+Definition v99 : string := "5000".
+Definition v100 : string := "1000".
+Definition v101 : string := "stat".
+Definition v102 : string := "Stats".
+Definition v103 : string := "priority".
+Definition v104 : string := "priority.window ".
+Definition v105 : string := "sub-".
+Definition v106 : string := "sub-00".
+Definition v107 : string := "sub-0 ".
+Definition v108 : string := "1.0".
+Definition v109 : string := "2".
+Definition v110 : string := "2.00".
+Definition v111 : string := "2.0 ".
+Definition v112 : string := " 2.0".
+Definition v113 : string := "3.0".
+Definition v114 : string := "2.1".
+Definition v115 : string := "zz".
+Definition v116 : string := "aa".
+Definition v117 : string := "extra".
+Definition v118 : string := "Jsonrpc".
+Definition v119 : string := "ID".
+Definition v120 : string := "method ".
+Definition v121 : string := "param".
+Definition v122 : string := "x".
+Definition v123 : string := "k".
+Definition v124 : string := "zzz".
+Definition v125 : string := "b".
+Definition v126 : string := "MODE".
+Definition v127 : string := "ENABLED".
+Definition v128 : string := "MS".
+Definition v129 : string := "TOPIC".
+Definition v130 : string := "SUBSCRIPTION_ID".
+Definition v131 : string := "mode ".
+Definition v132 : string := "enabled ".
+Definition v133 : string := "ms ".
+Definition v134 : string := "topic ".
+Definition v135 : string := "subscription_id ".
+Definition v136 : string := "s".
+(* vocabulary: END *)
+(** digest of an error message / data string that is not in the vocabulary *)
+Definition D (n : Z) : string := String.append "~" (NilZero.string_of_uint (N.to_uint (Z.to_N n))).
+
+(** implementation observation of one line; [Same]: both entry points gave literally the same *)
+Inductive cobs := Same (o : obs1) | Ob2 (a b : obs1).
+Definition expand (c : cobs) : obs :=
+  match c with Same o => Ob o o | Ob2 a b => Ob a b end.
+
 Inductive case :=
-| CSeq (i : init) (ctx : bool) (ops : list op) (snap0 : option config) (impl : list obs).
+| CSeq (i : init) (ctx : bool) (ops : list op) (snap0 : option config) (cimpl : list cobs).
 
 Definition check_case (c : case) : N :=
   match c with
-  | CSeq i ctx ops snap0 impl =>
+  | CSeq i ctx ops snap0 cimpl =>
+      let impl := map expand cimpl in
       let m := run i ctx ops in
       let d0 := if opt_eqb cfg_eqb (tr_snap0 m) snap0 then first_diff (tr_steps m) impl 0 else 1%N in
       let lens := (List.length impl =? List.length ops)%nat in
